@@ -1013,6 +1013,14 @@ func (x *Evaluator) evalLoad(v *ssa.UnOp, e *env, c *evalCtx) Val {
 				return m
 			}
 		}
+		// a package-level list written as a literal and never changed
+		if _, isSlice := v.Type().Underlying().(*types.Slice); isSlice {
+			if m, ok := x.globalMapLiteral(a); ok {
+				if l, ok := m.(ListV); ok {
+					return l
+				}
+			}
+		}
 		// package-level state of the converter package behaves like a field of the (single) converter
 		if a.Pkg != nil && a.Pkg == v.Parent().Pkg && (isInt(v.Type()) || isString(v.Type())) {
 			if isInt(v.Type()) && e.site != "" && storesGlobal(v.Parent(), a) {
@@ -1927,6 +1935,24 @@ func (x *Evaluator) globalMapLiteral(g *ssa.Global) (Val, bool) {
 						if u, ok := y.Map.(*ssa.UnOp); ok && u.X == ssa.Value(g) {
 							return nil, false
 						}
+					case *ssa.IndexAddr:
+						// an element of the list assigned (or its address taken for a write)
+						if u, ok := y.X.(*ssa.UnOp); ok && u.X == ssa.Value(g) && y.Referrers() != nil {
+							for _, r2 := range *y.Referrers() {
+								switch w := r2.(type) {
+								case *ssa.Store:
+									if w.Addr == ssa.Value(y) {
+										return nil, false
+									}
+								case *ssa.FieldAddr:
+									for _, r3 := range *w.Referrers() {
+										if st, ok := r3.(*ssa.Store); ok && st.Addr == ssa.Value(w) {
+											return nil, false
+										}
+									}
+								}
+							}
+						}
 					}
 				}
 			}
@@ -1963,6 +1989,82 @@ func (x *Evaluator) globalMapLiteral(g *ssa.Global) (Val, bool) {
 		switch y := v.(type) {
 		case *ssa.Const:
 			return constVal(y), true
+		case *ssa.Function:
+			return FuncV{Fn: y}, true
+		case *ssa.ChangeType:
+			return build(y.X, d+1)
+		case *ssa.Slice:
+			// a list literal: elements stored one by one (scalars) or field by field (structs)
+			al, ok := y.X.(*ssa.Alloc)
+			if !ok || y.Low != nil || y.High != nil {
+				return nil, false
+			}
+			arr, ok := al.Type().Underlying().(*types.Pointer).Elem().Underlying().(*types.Array)
+			if !ok || arr.Len() > 64 {
+				return nil, false
+			}
+			elems := make([]Val, arr.Len())
+			fields := map[int64]map[string]Val{}
+			for _, ref := range *al.Referrers() {
+				ia, ok := ref.(*ssa.IndexAddr)
+				if !ok {
+					if ref == ssa.Instruction(y) {
+						continue
+					}
+					if _, isDbg := ref.(*ssa.DebugRef); isDbg {
+						continue
+					}
+					return nil, false
+				}
+				kc, ok := ia.Index.(*ssa.Const)
+				if !ok || kc.Value == nil {
+					return nil, false
+				}
+				k, _ := constant.Int64Val(kc.Value)
+				for _, r2 := range *ia.Referrers() {
+					switch z := r2.(type) {
+					case *ssa.Store:
+						if z.Addr != ssa.Value(ia) {
+							return nil, false
+						}
+						val, ok := build(z.Val, d+1)
+						if !ok {
+							return nil, false
+						}
+						elems[k] = val
+					case *ssa.FieldAddr:
+						for _, r3 := range *z.Referrers() {
+							st, ok := r3.(*ssa.Store)
+							if !ok || st.Addr != ssa.Value(z) {
+								return nil, false
+							}
+							val, ok := build(st.Val, d+1)
+							if !ok {
+								return nil, false
+							}
+							if fields[k] == nil {
+								fields[k] = map[string]Val{}
+							}
+							fields[k][structFieldName(z.X.Type(), z.Field)] = val
+						}
+					default:
+						return nil, false
+					}
+				}
+			}
+			for k := range elems {
+				if fs, ok := fields[int64(k)]; ok {
+					elems[k] = StructV{Fields: fs}
+				}
+				if elems[k] == nil {
+					if _, isStruct := arr.Elem().Underlying().(*types.Struct); isStruct {
+						elems[k] = StructV{Fields: map[string]Val{}}
+					} else {
+						elems[k] = x.zeroOf(arr.Elem())
+					}
+				}
+			}
+			return ListV{Finite: elems, IsFinite: true, Origin: "literal:" + g.Name()}, true
 		case *ssa.MakeMap:
 			m := MapV{Entries: map[string]Val{}}
 			if y.Referrers() == nil {
